@@ -116,11 +116,17 @@ def run(pid, tier, seed):
             per = 24 if q else 60
             groups.append((c8, gen_core.gen_seg(seed, 16 if q else 300, per, common.slot_tags(c8)), "seg", None))
             grp["seg"] = per + 1
+        specs = {}
+        if pid == "C15":
+            # a node that is removed from the topology while a request is in flight on it (the node stays silent)
+            import topo_checks
+            groups.append((dict(topo_checks.CFG), [topo_checks.removal_scenario("node-removed-in-flight-%d" % k) for k in range(2)], "removal", None))
+            specs["removal"] = dict(spec="TopoTrace", cfgfile="TopoTrace.cfg", par=1)
         viol = []
         for cfg, scs, tag, conform in groups:
             if not scs:
                 continue
-            r = common.replay_and_validate(cfg, scs, wd, tag, conform=conform, group=grp.get(tag, 1))
+            r = common.replay_and_validate(cfg, scs, wd, tag, conform=conform, group=grp.get(tag, 1), **specs.get(tag, {}))
             cov["states"] += r["states"]
             cov["transitions"] += r["transitions"]
             cov["traces"] += r["traces"]
@@ -162,7 +168,8 @@ def replay(pid, payload):
     """Re-runs one saved scenario and returns the violations of pid it exposes."""
     wd = common.scratch()
     try:
-        r = common.replay_and_validate(payload["cfg"], [payload["scenario"]], wd, "replay", par=1)
+        kw = dict(spec="TopoTrace", cfgfile="TopoTrace.cfg") if any(x["op"] in ("topo", "refresh") for x in _stims(payload["scenario"])) else {}
+        r = common.replay_and_validate(payload["cfg"], [payload["scenario"]], wd, "replay", par=1, **kw)
         return [v for v in r["viol"] if v["prop"] in (pid, "DEAD")]
     finally:
         shutil.rmtree(wd, ignore_errors=True)
